@@ -374,6 +374,7 @@ func c07round2(c *Ctx, i int) {
 	if i < 2 {
 		c.Sample(map[string]string{"document": text})
 	}
+	c07sameDocEdits(c, text, i)
 	for k, n := range all {
 		_, isRole := n.(gedcom.FamilyNoder)
 		_, isFam := n.(*gedcom.FamilyNode)
@@ -395,6 +396,90 @@ func c07round2(c *Ctx, i int) {
 			c.Tie("copynil "+encForest([]*TNode{abstractNode(n)}), obs)
 			c.Eval()
 			c.Count("nil:copynil:" + n.Tag().Tag() + "=" + obs[:2])
+		}
+	}
+}
+
+// c07sameDocEdits: two distinct record objects with the same pointer in the same document — a
+// record deep-copied into its OWN document and then edited, and decoded documents in which two
+// records share a pointer but differ in a child.  A tree that differs from another by an added,
+// removed or changed plain node is never deep-equal to it, whichever document the nodes belong to.
+func c07sameDocEdits(c *Ctx, text string, i int) {
+	r := c.R
+	doc, err := gedcom.NewDocumentFromString(text)
+	if err != nil {
+		return
+	}
+	recs := append(gedcom.Nodes{}, doc.Nodes()...)
+	for _, rec := range recs {
+		tag := rec.Tag().Tag()
+		if tag != "INDI" && tag != "FAM" && !r.Chance(1, 3) {
+			continue
+		}
+		dst := doc // the record's own document
+		if d, ok := rec.(interface{ Document() *gedcom.Document }); ok && d.Document() != nil {
+			dst = d.Document()
+		}
+		cp, panicked := c07copy(rec, dst)
+		if panicked || gedcom.IsNil(cp) {
+			continue
+		}
+		in := map[string]string{"document": text, "record": rec.GEDCOMString(0)}
+		c.Eval()
+		// unedited: deep-equal, both orders
+		if !gedcom.DeepEqual(rec, cp) || !gedcom.DeepEqual(cp, rec) {
+			in["case"] = "DeepCopy(record, its own document)"
+			c.Oracle("", "a record is not deep-equal to a deep copy of itself in its own document", in, "DeepEqual=false", "true")
+		}
+		// one edit of a plain node on the copy
+		what := ""
+		all := c07preorderNodes(gedcom.Nodes{cp})
+		target := all[r.Intn(len(all))]
+		switch op := r.Intn(3); {
+		case op == 0 || len(cp.Nodes()) == 0:
+			target.AddNode(gedcom.NewNode(gedcom.TagFromString("NOTE"), "added to the copy", ""))
+			what = "AddNode(NOTE) on the copy"
+		case op == 1:
+			ks := cp.Nodes()
+			cp.DeleteNode(ks[r.Intn(len(ks))])
+			what = "DeleteNode(child) on the copy"
+		default: // a child replaced by a plain node with another value
+			ks := cp.Nodes()
+			cp.DeleteNode(ks[r.Intn(len(ks))])
+			cp.AddNode(gedcom.NewNode(gedcom.TagFromString("NOTE"), "replacement", ""))
+			what = "child of the copy replaced by a NOTE"
+		}
+		in["case"] = "DeepCopy(record, its own document), then " + what
+		in["copy_after"] = cp.GEDCOMString(0)
+		c.Count("same-doc-edit:" + tag)
+		c.Nontrivial("same-doc-edit/" + tag + "/" + what)
+		ab, ba := gedcom.DeepEqual(rec, cp), gedcom.DeepEqual(cp, rec)
+		c.Tie("deq "+encForest([]*TNode{abstractNode(rec), abstractNode(cp)}), c07deq(rec, cp))
+		if ab || ba {
+			c.Oracle("", "a record and an edited copy of it in the same document are deep-equal", in,
+				fmt.Sprintf("DeepEqual(source,copy)=%v DeepEqual(copy,source)=%v", ab, ba), "false both ways")
+		}
+	}
+	// two records with the same pointer that differ in a child
+	if i%2 == 0 {
+		for _, tag := range []string{"INDI", "FAM", "SOUR"} {
+			base := fmt.Sprintf("0 @P1@ %s\n1 NOTE common\n", tag)
+			extra := r.Pick([]string{"1 NOTE only here\n", "1 OCCU x\n2 NOTE deep\n", "1 NOTE common\n"})
+			txt := "0 @I9@ INDI\n1 NAME A /B/\n" + base + base + extra
+			d2, err := gedcom.NewDocumentFromString(txt)
+			if err != nil || len(d2.Nodes()) != 3 {
+				continue
+			}
+			a, b := d2.Nodes()[1], d2.Nodes()[2]
+			c.Eval()
+			c.Count("same-pointer-records:" + tag)
+			ab, ba := gedcom.DeepEqual(a, b), gedcom.DeepEqual(b, a)
+			c.Tie("deq "+encForest([]*TNode{abstractNode(a), abstractNode(b)}), c07deq(a, b))
+			if ab || ba {
+				c.Oracle("", "two records with the same pointer that differ by an added node are deep-equal",
+					map[string]string{"case": "decoded document with two records sharing a pointer", "document": txt},
+					fmt.Sprintf("DeepEqual=%v/%v", ab, ba), "false both ways")
+			}
 		}
 	}
 }
